@@ -73,6 +73,8 @@ type Explore struct {
 
 	targets     map[uint64]*exploringTarget
 	targetsLock sync.Mutex
+	// jobs are the jobs of the last applied config, nil until a config was applied
+	jobs []string
 
 	retryInterval time.Duration
 	needExplore   chan *exploringTarget
@@ -152,6 +154,7 @@ func (e *Explore) ApplyConfig(cfg *prom.ConfigInfo) error {
 	}
 
 	e.targets = newTargets
+	e.jobs = jobs
 	return nil
 }
 
@@ -163,6 +166,10 @@ func (e *Explore) UpdateTargets(targets map[string][]*discovery.SDTargets) {
 	all := map[uint64]*exploringTarget{}
 	jobsOf := map[uint64][]string{}
 	for job, ts := range targets {
+		// the update may have been translated before a reload removed the job
+		if e.jobs != nil && !types.FindString(job, e.jobs...) {
+			continue
+		}
 		for _, t := range ts {
 			hash := t.ShardTarget.Hash
 			jobsOf[hash] = append(jobsOf[hash], job)
